@@ -230,6 +230,10 @@ func (p *contractPayment) SubscribeBalance(ctx context.Context, handler func(acc
 				logger.Printf("SubscribeBalance failed to subscribe again: %s", err)
 				break
 			}
+			// Subscribing took its time too (it includes reconnecting).
+			// Whatever was read and cached meanwhile has not been watched by
+			// any subscription either.
+			p.balanceCache.Reset(0)
 		}
 		logger.Printf("SubscribeBalance event loop aborted, falling back to expiration cache.")
 		p.balanceCache.Reset(time.Minute * 10)
